@@ -125,7 +125,7 @@ def run_ops(ed, ops):
     out = []
     for op in ops:
         if op[0] == "add":
-            engine.receiver.add_data(op[1])
+            engine.receiver.add_data(None if op[1] == -1 else op[1])
         elif op[0] == "update":
             engine.update()
             out += [-5] + sizes(engine, handler)
